@@ -32,31 +32,20 @@ open Pdt Pdt.Reader Pdt.Represent Pdt.Blocks Pdt.Grid
 
 /-! ## 0. what is pinned from the source, and what is not
 
-  Pinned (theorems over the regenerated `Gen.*`, a change breaks the build): the *semantic* facts the Lean side
-  cannot see otherwise — which cell attributes the style loop assigns, that nothing assigns `.value`, the two header
-  f-strings and the destination join, workbook-order iteration of the sheets, `pattern.match`.
-  Not pinned (informational fingerprints in the translator output / evidence only): `Gen.excelAppended` (order and
-  content of the appended rows), `Gen.excelInts`, `Gen.excelStyleStmts` (the style index arithmetic).  These are
-  decided on every run by the correspondence — appended rows and saved value grid cell by cell against
-  `Grid.layoutSheet` / `Grid.store`, styled-cell coordinates against `Grid.styleTargets` — and by the round-trip
-  oracle, so harmless restructurings of that code (helper generators, swapped if/else arms, one-pass `max`) raise no
-  alarm. -/
-
-/-- the header cell `**name` / `**name*` chosen by `table.metadata.transposed`, and the destinations joined by one
-    blank (local names blanked) -/
-theorem header_text_pinned :
-    Gen.excelHeaders = ["_.metadata.transposed => f'**{_.name}*'", "not _.metadata.transposed => f'**{_.name}'"] ∧
-    Gen.excelDest = ["' '.join((str(_) for _ in _.metadata.destinations))"] := by decide
+  Pinned (theorems over the regenerated `Gen.*`, a change breaks the build): only what neither the Lean side nor the
+  saved files can show — which cell attributes the style loop assigns, and that nothing in the module assigns
+  `.value` — plus the two constants of `_represent_row_elements`.
+  Not pinned (informational fingerprints in the translator output / evidence only): `Gen.excelAppended`,
+  `Gen.excelInts`, `Gen.excelStyleStmts`, `Gen.excelHeaders`, `Gen.excelDest`, `Gen.excelWriteLoops`,
+  `Gen.excelReadIters`, `Gen.excelReadYields`, `Gen.excelPatternCalls`.  What they describe is decided on every run by
+  the correspondence (saved value grid cell by cell against `Grid.store (Grid.layoutSheet …)`, every block of
+  `read_excel` against `Grid.readExcel`) and by the round-trip oracle (header cells, sheet order, origin sheets,
+  `match` versus `search` patterns), so equivalent rewrites (`"**" + name`, `re.match(pattern, name)`, `ws.values`,
+  helper generators, swapped if/else arms) raise no alarm. -/
 
 /-- the style loop assigns `font`, `fill`, `alignment` — never a value; nothing in the module assigns `.value` -/
 theorem style_writes_pinned :
     Gen.excelStyleWrites = ["alignment", "fill", "font"] ∧ Gen.excelValueWrites = [] := by decide
-
-/-- sheets are written in the order of the mapping and read in workbook order; the pattern is applied with `match` -/
-theorem sheet_loops_pinned :
-    Gen.excelWriteLoops = ["_"] ∧ Gen.excelReadIters = ["_.worksheets"] ∧
-    Gen.excelReadYields = ["(_.title, _.iter_rows(values_only=True))"] ∧
-    Gen.excelPatternCalls = ["sheet_name_pattern.match(_)"] := by decide
 
 theorem represent_consts_pinned : Gen.sealant = "-".toList ∧ Gen.naRepDefault = "-".toList := by decide
 
@@ -148,6 +137,50 @@ example :
     sheetNamesOK ["a/b".toList] = false ∧ sheetNamesOK ["A".toList, "a".toList] = false ∧
     sheetNamesOK [[]] = false ∧ sheetNamesOK [List.replicate 32 'x'] = false ∧ sheetNamesOK [] = false := by decide
 
+/-! ### sizes: outside the domain the real stack alters or fails, and the model says how -/
+
+/-- a cell text longer than 32767 characters does not survive the workbook: openpyxl cuts it (observed: 32768 ↦ 32767
+    characters; a 40000-character table name loses its tail, for a transposed table the `*` with it) -/
+theorem long_text_is_cut (s : Str) (hne : s ≠ []) (heq : s.head? ≠ some '=') (hlong : maxCellChars < s.length) :
+    storeCell (.str s) = .str (s.take maxCellChars) ∧ storeCell (.str s) ≠ .str s := by
+  have hst : storeCell (.str s) = .str (s.take maxCellChars) := by
+    cases s with
+    | nil => exact absurd rfl hne
+    | cons c cs =>
+      have hc : c ≠ '=' := by simpa using heq
+      unfold storeCell
+      split <;> simp_all
+  refine ⟨hst, ?_⟩
+  rw [hst]
+  intro e
+  have := congrArg (fun c => match c with | Cell.str x => x.length | _ => 0) e
+  simp only [List.length_take] at this
+  omega
+
+/-- … and such a text, name or unit is outside the well-formedness predicate -/
+theorem long_text_not_wf (u s : Str) (h : maxCellChars < s.length) : valOK u (.text s) = false := by
+  have : decide (s.length ≤ maxCellChars) = false := by simp; omega
+  simp [valOK, textOK, strRepresentable, this]
+
+theorem long_name_not_wf (t : TableVal) (h : maxCellChars < t.name.length + 3) : excelWF t = false := by
+  have : decide (t.name.length + 3 ≤ maxCellChars) = false := by simp; omega
+  simp [excelWF, sizeOK, this]
+
+/-- a table occupying more than 18278 sheet columns (its columns, or rows + 2 when transposed) is outside the
+    predicate … -/
+theorem too_wide_not_wf (t : TableVal) (h : maxColumns < (dimOf t).trueCols) : excelWF t = false := by
+  simp only [dimOf, Dim.trueCols] at h
+  cases ht : t.transposed <;> simp only [ht, if_true, if_false, Bool.false_eq_true] at h <;>
+    simp [excelWF, sizeOK, ht] <;> omega
+
+/-- … and writing a sheet that wide raises ValueError (openpyxl: `Invalid column index`), styled or not -/
+theorem too_wide_raises (naRep : Str) (sep : Nat) (styles : Bool) (name : Str) (tables : List TableVal)
+    (h : maxColumns < width (layoutSheet naRep sep tables)) :
+    writeSheet naRep sep styles name tables = .error .valueError := by
+  simp [writeSheet, h]
+
+example : maxCellChars = 32767 ∧ maxColumns = 18278 ∧ maxRows = 1048576 := ⟨rfl, rfl, rfl⟩
+
 /-- no clause is idle: one violated clause each -/
 example :
     excelWF { exRowwise with name := "x*".toList } = false ∧
@@ -185,7 +218,8 @@ theorem store_length (rows : List Row) : (store rows).length = (dropTrailingEmpt
 
 /-- **one sheet, any tables**: styling raises nothing, the value grid is `store` of the appended rows whether or not
     styles are applied, and every styled cell lies in the rows of its own table, inside the sheet -/
-theorem writeSheet_styles (naRep : Str) (sep : Nat) (name : Str) (tables : List TableVal) :
+theorem writeSheet_styles (naRep : Str) (sep : Nat) (name : Str) (tables : List TableVal)
+    (hw : width (layoutSheet naRep sep tables) ≤ maxColumns) :
     ∃ ts w, writeSheet naRep sep true name tables = .ok ⟨name, store (layoutSheet naRep sep tables), ts, w⟩ ∧
       writeSheet naRep sep false name tables = .ok ⟨name, store (layoutSheet naRep sep tables), [], []⟩ ∧
       ∀ x ∈ ts, Spec.InOwnTable naRep sep (store (layoutSheet naRep sep tables)).length
@@ -199,8 +233,10 @@ theorem writeSheet_styles (naRep : Str) (sep : Nat) (name : Str) (tables : List 
       simp only [layoutSheet, List.mem_flatMap]
       exact ⟨t, ht, List.mem_append_left _ hr⟩
   obtain ⟨ts, hts, hin⟩ := styleTargets_ok _ _ sep (tables.map dimOf) 0 0 hfit
-  refine ⟨ts, widenedColumns (tables.map dimOf), ?_, rfl, ?_⟩
-  · simp [writeSheet, hts, bind, Except.bind, pure, Except.pure]
+  have hnw : ¬ width (layoutSheet naRep sep tables) > maxColumns := by omega
+  refine ⟨ts, widenedColumns (tables.map dimOf), ?_, ?_, ?_⟩
+  · simp [writeSheet, hnw, hts, bind, Except.bind, pure, Except.pure]
+  · simp [writeSheet, hnw, pure, Except.pure]
   · intro x hx
     rw [store_length]
     exact inOwn_to_spec naRep sep _ _ tables 0 0 x (hin x hx)
@@ -236,15 +272,16 @@ theorem store_rectangular (rows : List Row) : ∀ r ∈ store rows, r.length = w
   omega
 
 /-- the whole workbook: what is written, sheet by sheet -/
-theorem writeExcel_sheets (naRep : Str) (sep : Nat) (styles : Bool) (sheets : List (Str × List TableVal)) :
+theorem writeExcel_sheets (naRep : Str) (sep : Nat) (styles : Bool) (sheets : List (Str × List TableVal))
+    (hw : ∀ s ∈ sheets, width (layoutSheet naRep sep s.2) ≤ maxColumns) :
     ∃ wb, writeExcel naRep sep styles sheets = .ok wb ∧
       readSheets wb = sheets.map (fun s => (s.1, store (layoutSheet naRep sep s.2))) := by
   induction sheets with
   | nil => exact ⟨[], rfl, rfl⟩
   | cons s rest ih =>
     obtain ⟨n, ts⟩ := s
-    obtain ⟨wb, hwb, hr⟩ := ih
-    obtain ⟨st, w, h1, h2, _⟩ := writeSheet_styles naRep sep n ts
+    obtain ⟨wb, hwb, hr⟩ := ih (fun x hx => hw x (List.mem_cons_of_mem _ hx))
+    obtain ⟨st, w, h1, h2, _⟩ := writeSheet_styles naRep sep n ts (hw (n, ts) (by simp))
     cases styles
     · refine ⟨⟨n, store (layoutSheet naRep sep ts), [], []⟩ :: wb, ?_, ?_⟩
       · simp [writeExcel, h2, hwb, bind, Except.bind, pure, Except.pure]
@@ -263,7 +300,8 @@ theorem writeExcel_sheets (naRep : Str) (sep : Nat) (styles : Bool) (sheets : Li
     the real style loop assigns only `font` / `fill` / `alignment` and nothing in the module assigns `.value` is the
     translator pin `style_writes_pinned`; that the saved cell values are identical with and without styles is
     checked by the harness on every styled case (value grid of the two saved files, cell by cell). -/
-theorem style_touches_no_value (naRep : Str) (sep : Nat) (sheets : List (Str × List TableVal)) :
+theorem style_touches_no_value (naRep : Str) (sep : Nat) (sheets : List (Str × List TableVal))
+    (hw : ∀ s ∈ sheets, width (layoutSheet naRep sep s.2) ≤ maxColumns) :
     ∃ wbS wbU, writeExcel naRep sep true sheets = .ok wbS ∧ writeExcel naRep sep false sheets = .ok wbU ∧
       readSheets wbS = readSheets wbU ∧ (∀ s ∈ wbU, s.styled = []) ∧
       Spec.Aligned (fun (s : SheetOut) (inp : Str × List TableVal) =>
@@ -274,8 +312,8 @@ theorem style_touches_no_value (naRep : Str) (sep : Nat) (sheets : List (Str × 
   | nil => exact ⟨[], [], rfl, rfl, rfl, by simp, trivial⟩
   | cons s rest ih =>
     obtain ⟨n, ts⟩ := s
-    obtain ⟨wbS, wbU, hS, hU, hrs, hun, hall⟩ := ih
-    obtain ⟨st, w, h1, h2, hin⟩ := writeSheet_styles naRep sep n ts
+    obtain ⟨wbS, wbU, hS, hU, hrs, hun, hall⟩ := ih (fun x hx => hw x (List.mem_cons_of_mem _ hx))
+    obtain ⟨st, w, h1, h2, hin⟩ := writeSheet_styles naRep sep n ts (hw (n, ts) (by simp))
     refine ⟨⟨n, store (layoutSheet naRep sep ts), st, w⟩ :: wbS, ⟨n, store (layoutSheet naRep sep ts), [], []⟩ :: wbU,
       by simp [writeExcel, h1, hS, bind, Except.bind, pure, Except.pure],
       by simp [writeExcel, h2, hU, bind, Except.bind, pure, Except.pure], ?_, ?_, ?_⟩
@@ -374,16 +412,22 @@ theorem tablesOf_flatMap {α : Type} (l : List α) (g : α → List (Str × Deli
     as origin, with identical name, destinations, orientation, column names, units and values (`Spec.readBack`).
     The sheet names must be legal and distinct ignoring case (`sheetNamesOK`): creating and titling sheets is
     openpyxl's business, the model writes the names as given, and outside that domain the real code raises
-    (`"a/b"`) or renames (`"A"`, `"a"` ↦ `"A"`, `"a1"`) — see the negative examples below and in the harness. -/
+    (`"a/b"`) or renames (`"A"`, `"a"` ↦ `"A"`, `"a1"`) — see the negative examples below and in the harness.
+    Sizes are part of the domain (`sizeOK` inside `excelWF`, `strRepresentable`): a cell text longer than 32767
+    characters is cut by openpyxl (`long_text_is_cut`), a sheet wider than 18278 columns makes `write_excel` raise
+    (`too_wide_raises`); `sheetRowsOK` keeps a sheet within the 1048576 rows of the format (openpyxl itself was
+    observed to write and read 1048577 rows, so this clause is conservative). -/
 theorem excel_roundtrip (ext : Ext) (tracker : Tracker) (naRep : Str) (hna : naRepOK naRep = true)
     (sep : Nat) (hsep : 1 ≤ sep) (styles : Bool) (sheets : List (Str × List TableVal))
     (_hnames : sheetNamesOK (sheets.map (fun s => s.1)) = true)
+    (_hrows : ∀ s ∈ sheets, sheetRowsOK naRep sep s.2 = true)
     (hwf : ∀ s ∈ sheets, ∀ t ∈ s.2, excelWF t = true) (pattern : Str → Bool) (f0 : Fixer) :
     ∃ wb, writeExcel naRep sep styles sheets = .ok wb ∧
       (readExcel ⟨.pdtable, none, tracker, ext⟩ pattern f0 (readSheets wb)).ending = Ending.exhausted ∧
       tablesOf (readExcel ⟨.pdtable, none, tracker, ext⟩ pattern f0 (readSheets wb)).blocks =
         Spec.expectedRead pattern sheets := by
   obtain ⟨wb, hwb, hrs⟩ := writeExcel_sheets naRep sep styles sheets
+    (fun s hs => width_layoutSheet_le naRep sep s.2 (hwf s hs))
   refine ⟨wb, hwb, ?_⟩
   rw [hrs]
   have hall := readExcel_all_exhausted ⟨.pdtable, none, tracker, ext⟩ pattern f0
@@ -406,12 +450,14 @@ theorem excel_roundtrip (ext : Ext) (tracker : Tracker) (naRep : Str) (hna : naR
 theorem sep_lines_irrelevant (ext : Ext) (tracker : Tracker) (naRep : Str) (hna : naRepOK naRep = true)
     (sep1 sep2 : Nat) (h1 : 1 ≤ sep1) (h2 : 1 ≤ sep2) (st1 st2 : Bool) (sheets : List (Str × List TableVal))
     (hnames : sheetNamesOK (sheets.map (fun s => s.1)) = true)
+    (hrows1 : ∀ s ∈ sheets, sheetRowsOK naRep sep1 s.2 = true)
+    (hrows2 : ∀ s ∈ sheets, sheetRowsOK naRep sep2 s.2 = true)
     (hwf : ∀ s ∈ sheets, ∀ t ∈ s.2, excelWF t = true) (pattern : Str → Bool) (f0 : Fixer) :
     ∃ wb1 wb2, writeExcel naRep sep1 st1 sheets = .ok wb1 ∧ writeExcel naRep sep2 st2 sheets = .ok wb2 ∧
       tablesOf (readExcel ⟨.pdtable, none, tracker, ext⟩ pattern f0 (readSheets wb1)).blocks =
       tablesOf (readExcel ⟨.pdtable, none, tracker, ext⟩ pattern f0 (readSheets wb2)).blocks := by
-  obtain ⟨wb1, hw1, _, ht1⟩ := excel_roundtrip ext tracker naRep hna sep1 h1 st1 sheets hnames hwf pattern f0
-  obtain ⟨wb2, hw2, _, ht2⟩ := excel_roundtrip ext tracker naRep hna sep2 h2 st2 sheets hnames hwf pattern f0
+  obtain ⟨wb1, hw1, _, ht1⟩ := excel_roundtrip ext tracker naRep hna sep1 h1 st1 sheets hnames hrows1 hwf pattern f0
+  obtain ⟨wb2, hw2, _, ht2⟩ := excel_roundtrip ext tracker naRep hna sep2 h2 st2 sheets hnames hrows2 hwf pattern f0
   exact ⟨wb1, wb2, hw1, hw2, by rw [ht1, ht2]⟩
 
 /-- non-vacuity: the model round trip of a three-table sheet map (mixed columns, both orientations, a table without
@@ -475,16 +521,18 @@ theorem written_cells_representable (naRep : Str) (hna : naRepOK naRep = true) (
     (h : excelWF t = true) : ∀ r ∈ layoutTable naRep t, ∀ c ∈ r, cellRepresentable c = true := by
   obtain ⟨_, _, _, w4, w5, _, _, w8, _, _⟩ := excelWF_facts t h
   have hname : t.name.all charOK = true := by
-    simp only [excelWF, Bool.and_eq_true] at h
-    exact h.1.1.1.1.1.1.1.1.1
+    simp only [excelWF, excelWFCore, Bool.and_eq_true] at h
+    exact h.2.1.1.1.1.1.1.1.1.1
+  have hsz := excelWF_size t h
   have hcf := fun c hc => columnOK_facts t.nRows c (w8 c hc)
   have hhdr : cellRepresentable (.str (header t)) = true := by
-    simp only [cellRepresentable, strRepresentable, header, Bool.and_eq_true]
-    refine ⟨⟨by simp, by simp⟩, ?_⟩
-    simp only [List.all_cons, List.all_append, hname, Bool.and_true, Bool.true_and]
+    have hl : (header t).length ≤ maxCellChars := Nat.le_trans (header_length_le t) hsz.1
+    simp only [cellRepresentable, strRepresentable, Bool.and_eq_true, decide_eq_true_eq]
+    refine ⟨⟨⟨by simp [header], by simp [header]⟩, ?_⟩, hl⟩
+    simp only [header, List.all_cons, List.all_append, hname, Bool.and_true, Bool.true_and]
     cases t.transposed <;> decide
   have hdst : cellRepresentable (.str (destCell t)) = true := by
-    obtain ⟨e, _⟩ := destCell_facts t w4 w5
+    obtain ⟨e, _⟩ := destCell_facts t w4 w5 hsz.2.1
     have hne : destCell t ≠ [] := joinWith_ne_nil _ w4 (fun d hd => (destOK_facts d (w5 d hd)).1)
     have hch : (destCell t).all charOK = true := by
       apply charOK_joinWith
@@ -503,8 +551,9 @@ theorem written_cells_representable (naRep : Str) (hna : naRepOK naRep = true) (
         simp at e'
         subst e'
         simp [storeCell] at e
-    simp only [cellRepresentable, strRepresentable, Bool.and_eq_true, Bool.not_eq_true', bne_iff_ne, ne_eq]
-    exact ⟨⟨by cases hd : destCell t <;> simp_all, hhead⟩, hch⟩
+    simp only [cellRepresentable, strRepresentable, Bool.and_eq_true, Bool.not_eq_true', bne_iff_ne, ne_eq,
+      decide_eq_true_eq]
+    exact ⟨⟨⟨by cases hd : destCell t <;> simp_all, hhead⟩, hch⟩, hsz.2.1⟩
   have htext : ∀ s, textOK s = true → cellRepresentable (.str s) = true := by
     intro s hs
     simp only [textOK, Bool.and_eq_true] at hs
